@@ -2,7 +2,7 @@
    hand-written model's [extract_bits] (Model/Cursor.v), for every buffer, every start bit >= 0 and every width, including
    the exceptions.  Compiled on every run against the freshly generated Gen/Fun_C03.v. *)
 From Coq Require Import ZArith List Bool Lia.
-From SPP Require Import Base.Bytes Base.Sx Base.PyEval Model.Cursor Gen.Fun_C03.
+From SPP Require Import Base.Bytes Base.Sx Base.PyEval Model.Cursor Model.Header Proofs.CursorP Gen.Fun_C03.
 Import ListNotations.
 Open Scope Z_scope.
 
@@ -38,3 +38,99 @@ Proof.
     destruct (nbits <? 0); cbn [bind py_sub arith as_int py_bitand]; reflexivity.
 Qed.
 Print Assumptions gen_extract_bits_is_model.
+
+(* ---- the cursor methods: RawPacketData.read_as_int / read_as_bytes, the cursor threaded through as a value ---- *)
+Definition out_int (r : res (Z * cursor)) : res (pv * pv) :=
+  match r with Ok (v, c') => Ok (VInt v, VInt (cpos c')) | Err e => Err e end.
+Definition out_bytes (r : res (list Z * cursor)) : res (pv * pv) :=
+  match r with Ok (v, c') => Ok (VBytes v, VInt (cpos c')) | Err e => Err e end.
+
+Theorem gen_read_as_int_is_model data pos nbits : 0 <= pos ->
+  gen_read_as_int (VBytes data) (VInt pos) (VInt nbits) = out_int (read_as_int {| cdata := data; cpos := pos |} nbits).
+Proof.
+  intro Hp. unfold gen_read_as_int, read_as_int, out_int. cbn [py_lt as_int bind PyEval.truthy cdata cpos].
+  destruct (nbits <? 0); [reflexivity|].
+  rewrite (gen_extract_bits_is_model data pos nbits Hp). destruct (extract_bits data pos nbits) as [v|e]; cbn [bind py_add arith as_int cpos]; reflexivity.
+Qed.
+Print Assumptions gen_read_as_int_is_model.
+
+Lemma masked_fits v sh n : 0 <= n -> 0 <= Z.land (Z.shiftr v sh) (2 ^ n - 1) < 2 ^ (8 * ((n + 7) / 8)).
+Proof.
+  intro Hn. replace (2 ^ n - 1) with (Z.ones n) by (rewrite Z.ones_equiv; lia). rewrite Z.land_ones by lia.
+  pose proof (Z.mod_pos_bound (Z.shiftr v sh) (2 ^ n) ltac:(apply Z.pow_pos_nonneg; lia)) as B.
+  assert (2 ^ n <= 2 ^ (8 * ((n + 7) / 8))) by (apply Z.pow_le_mono_r; [lia|]; pose proof (Z.div_mod (n + 7) 8 ltac:(lia)); pose proof (Z.mod_pos_bound (n + 7) 8 ltac:(lia)); lia).
+  lia.
+Qed.
+
+Theorem gen_read_as_bytes_is_model data pos nbits : 0 <= pos ->
+  gen_read_as_bytes (VBytes data) (VInt pos) (VInt nbits) = out_bytes (read_as_bytes {| cdata := data; cpos := pos |} nbits).
+Proof.
+  intro Hp. unfold gen_read_as_bytes, read_as_bytes, out_bytes.
+  cbn [py_lt py_gt py_add py_mul py_mod py_eq py_len py_floordiv arith as_int bind PyEval.truthy cdata cpos Z.eqb].
+  destruct (Z.ltb_spec nbits 0) as [?|Hn]; [reflexivity|].
+  destruct (pos + nbits >? zlen data * 8); [reflexivity|].
+  destruct (pos mod 8 =? 0) eqn:A; cbn [bind PyEval.truthy andb].
+  - destruct (nbits mod 8 =? 0) eqn:B; cbn [bind PyEval.truthy].
+    + cbn [py_slice as_int bind py_add arith cpos].
+      assert (H8 : 0 <= pos / 8) by (apply Z.div_pos; lia).
+      rewrite (slice_python (pos / 8) (pos / 8 + (nbits + 7) / 8) data H8).
+      assert (Q : 0 <= (nbits + 7) / 8) by (apply Z.div_pos; lia).
+      destruct (Z.ltb_spec (pos / 8 + (nbits + 7) / 8) 0) as [?|_]; [lia|]. reflexivity.
+    + rewrite (gen_extract_bits_is_model data pos nbits Hp). unfold extract_bits. rewrite A, B. cbn [andb].
+      match goal with |- context [if ?c then Err EValue else _] => destruct c end; [reflexivity|].
+      destruct (Z.ltb_spec nbits 0) as [?|_]; [lia|]. cbn [bind py_add arith as_int py_floordiv Z.eqb py_to_bytes_big cpos].
+      assert (Q : 0 <= (nbits + 7) / 8) by (apply Z.div_pos; lia).
+      destruct (Z.ltb_spec ((nbits + 7) / 8) 0) as [?|_]; [lia|].
+      match goal with |- context [Z.land (Z.shiftr ?v ?sh) _] => pose proof (masked_fits v sh nbits Hn) as F end.
+      match goal with |- context [if ?x <? 0 then Err EOverflow else _] => destruct (Z.ltb_spec x 0) as [?|_]; [lia|] end.
+      match goal with |- context [if ?x <=? ?y then Err EOverflow else _] => destruct (Z.leb_spec x y) as [?|_]; [lia|] end.
+      reflexivity.
+  - rewrite (gen_extract_bits_is_model data pos nbits Hp). unfold extract_bits. rewrite A. cbn [andb].
+    match goal with |- context [if ?c then Err EValue else _] => destruct c end; [reflexivity|].
+    destruct (Z.ltb_spec nbits 0) as [?|_]; [lia|]. cbn [bind py_add arith as_int py_floordiv Z.eqb py_to_bytes_big cpos].
+    assert (Q : 0 <= (nbits + 7) / 8) by (apply Z.div_pos; lia).
+    destruct (Z.ltb_spec ((nbits + 7) / 8) 0) as [?|_]; [lia|].
+    match goal with |- context [Z.land (Z.shiftr ?v ?sh) _] => pose proof (masked_fits v sh nbits Hn) as F end.
+    match goal with |- context [if ?x <? 0 then Err EOverflow else _] => destruct (Z.ltb_spec x 0) as [?|_]; [lia|] end.
+    match goal with |- context [if ?x <=? ?y then Err EOverflow else _] => destruct (Z.leb_spec x y) as [?|_]; [lia|] end.
+    reflexivity.
+Qed.
+Print Assumptions gen_read_as_bytes_is_model.
+
+(* ---- the header accessors of RawPacketData (bit positions and widths from the current source) ---- *)
+Definition out_field (p : list Z) (s n : Z) : res pv := match extract_bits p s n with Ok z => Ok (VInt z) | Err e => Err e end.
+Lemma acc_version p : gen_version_number (VBytes p) = out_field p 0 3.
+Proof. unfold gen_version_number, out_field. rewrite gen_extract_bits_is_model by lia. now destruct (extract_bits p 0 3). Qed.
+Lemma acc_type p : gen_type (VBytes p) = out_field p 3 1.
+Proof. unfold gen_type, out_field. rewrite gen_extract_bits_is_model by lia. now destruct (extract_bits p 3 1). Qed.
+Lemma acc_shf p : gen_secondary_header_flag (VBytes p) = out_field p 4 1.
+Proof. unfold gen_secondary_header_flag, out_field. rewrite gen_extract_bits_is_model by lia. now destruct (extract_bits p 4 1). Qed.
+Lemma acc_apid p : gen_apid (VBytes p) = out_field p 5 11.
+Proof. unfold gen_apid, out_field. rewrite gen_extract_bits_is_model by lia. now destruct (extract_bits p 5 11). Qed.
+Lemma acc_flags p : gen_sequence_flags (VBytes p) = out_field p 16 2.
+Proof. unfold gen_sequence_flags, out_field. rewrite gen_extract_bits_is_model by lia. now destruct (extract_bits p 16 2). Qed.
+Lemma acc_count p : gen_sequence_count (VBytes p) = out_field p 18 14.
+Proof. unfold gen_sequence_count, out_field. rewrite gen_extract_bits_is_model by lia. now destruct (extract_bits p 18 14). Qed.
+Lemma acc_length p : gen_data_length (VBytes p) = Ok (VInt (zlen p - 7)).
+Proof. unfold gen_data_length. cbn [py_len bind py_sub arith as_int]. do 2 f_equal. lia. Qed.
+
+(* whenever the accessors succeed (the code raises on a packet shorter than its header), the tuple is the model's header_values *)
+Theorem gen_header_values_is_model p vs : gen_header_values (VBytes p) = Ok vs -> vs = map VInt (header_values p).
+Proof.
+  unfold gen_header_values, header_values, field.
+  rewrite acc_version, acc_type, acc_shf, acc_apid, acc_flags, acc_count, acc_length. unfold out_field.
+  destruct (extract_bits p 0 3); cbn [bind]; [|discriminate]. destruct (extract_bits p 3 1); cbn [bind]; [|discriminate].
+  destruct (extract_bits p 4 1); cbn [bind]; [|discriminate]. destruct (extract_bits p 5 11); cbn [bind]; [|discriminate].
+  destruct (extract_bits p 16 2); cbn [bind]; [|discriminate]. destruct (extract_bits p 18 14); cbn [bind]; [|discriminate].
+  intro H. injection H as <-. reflexivity.
+Qed.
+Print Assumptions gen_header_values_is_model.
+
+(* ... and on every buffer of bytes that holds a primary header they do succeed *)
+Theorem gen_header_values_total p : wf p -> 6 <= zlen p -> gen_header_values (VBytes p) = Ok (map VInt (header_values p)).
+Proof.
+  intros W L. unfold gen_header_values, header_values, field.
+  rewrite acc_version, acc_type, acc_shf, acc_apid, acc_flags, acc_count, acc_length. unfold out_field.
+  rewrite !(extract_bits_window p) by (auto; lia). reflexivity.
+Qed.
+Print Assumptions gen_header_values_total.
